@@ -49,30 +49,40 @@ RULE = ("cases come from one PRNG seeded by VERIF_SEED plus fixed catalogues: in
         "block byte strings of every length class (0, 1, 32, 33, 34, 64, 65, 33+32m, 33+32*128, 33+32*129). A case is "
         "non-trivial when it involves at least one hash or curve operation; distinct = distinct request lines / predicate inputs")
 CLAUSES = {
-    "output key = even(P) + H_TapTweak(x(P) || root) * G": "proved (tweaked_key_formula, external_pubkey_formula)",
+    "output key = even(P) + H_TapTweak(x(P) || root) * G": "proved (tweaked_key_formula, tweaked_key_infinity, "
+        "external_pubkey_formula, even_point_even)",
     "tweaked private key is the discrete log of the tweaked public key":
-        "proved relative to GroupLaw (priv_tweaked_key_point_relGroup: additivity and multiplicativity of smul on <G>); "
-        "even_secret_point_relGroup",
+        "proved (even_secret_point, priv_tweaked_key_point, priv_tweaked_key_none_iff) — instances of the `_relGroup` "
+        "lemmas of Buidl.Proofs.TaprootRel with GroupLaw discharged by Buidl.Proofs.TaprootGroup from the secp256k1 "
+        "development of C03",
     "Merkle root independent of sibling order": "proved (branch_hash_comm, tree_hash_swap)",
     "control block of every leaf recomputes root, key and parity":
-        "proved (control_block_merkle_root, control_block_external_pubkey) for every tree and leaf, by induction on the tree",
-    "control block parses back identically": "proved (cb_roundtrip, cb_serialize_parse) for at most 128 hashes of 32 bytes",
+        "proved (control_block_exists, control_block_merkle_root, control_block_external_pubkey, coherent_of_no_raw) "
+        "for every tree and leaf, by induction on the tree",
+    "control block parses back identically": "proved (cb_roundtrip, cb_roundtrip_key, cb_serialize_parse, cb_parse_fields) "
+        "for at most 128 hashes of 32 bytes",
     "lengths other than 33 + 32m (m <= 128) rejected": "proved (cb_parse_length)",
     "altered control block or leaf script is rejected or does not reproduce key and parity":
-        "proved as collision extraction relative to the hashes (opening_sound, tamper_script_collision, "
+        "proved as collision extraction relative to the hashes (opening_sound, opening_is_leaf, tamper_script_collision, "
         "tamper_control_block_collision): an accepted (control block, script) is a genuine opening of a leaf occurrence of "
-        "the committed tree or exhibits a collision of H_TapLeaf / H_TapBranch / between them / of the tweak map",
-    "P2TR script, witness accessors, TapBranch.combine": "model tied to the code by correspondence",
+        "the committed tree or exhibits a collision of H_TapLeaf / H_TapBranch / between them / of the tweak map; a byte "
+        "string other than the library's block accepted with the same script exhibits a collision",
+    "P2TR script, witness accessors, TapBranch.combine, locktime/sequence commands": "model tied to the code by correspondence",
 }
 TRUSTED = ["the tagged hashes are arbitrary functions in every theorem (fields of `Hashes`); the driver instantiates them "
            "with Buidl.Model.Hash.SHA256 and the tag strings re-extracted from buidl/phash.py (checked against hashlib by "
            "harness/hash_selftest.py and by every case of this run)",
            "curve arithmetic of the driver is Buidl.Model.EC (checked against buidl/pecc.py by this run and by C03)"]
-ASSUMPTIONS = ["H_TapLeaf and H_TapBranch return byte strings of one fixed length (32) — hypothesis of the tamper theorems",
-               "theorems about private keys quantify over points k*G (every key the library derives from a secret); "
-               "GroupLaw (module structure of <G> over Z/N, parity of negation, lift_x) is an explicit hypothesis of the "
-               "`_relGroup` theorems until Buidl.Proofs.Secp256k1 discharges it",
-               "the tweak H_TapTweak(..) mod N = -even_secret (tweaked key at infinity) is an explicit Option-none case"]
+ASSUMPTIONS = ["H_TapLeaf and H_TapBranch return 32-byte strings — hypothesis of the tamper theorems (the control block "
+               "layout fixes 32-byte path elements)",
+               "theorems about private keys and about re-parsed internal keys quantify over points k*G (every key the "
+               "library derives from a secret): Mathlib has no Hasse bound, so membership of arbitrary curve points in "
+               "<G> is not available",
+               "the tweak H_TapTweak(..) = -even_secret mod N (tweaked key at infinity) is an explicit Option-none case "
+               "(priv_tweaked_key_none_iff)",
+               "tree hypotheses of tamper_control_block_collision: leaves equal under TapLeaf.__eq__ hash alike (true for "
+               "scripts built from commands: Script.__eq__ ignores the `raw` attribute), pairwise different leaf "
+               "preimages, no second leaf with the same script bytes under another version"]
 
 
 class UnknownOp(Exception):
@@ -556,6 +566,33 @@ def run(ctx):
     def add(kind, line, determined=True):
         lines.append((kind, line, determined))
 
+    def flush():
+        """run model and implementation on what has been generated so far; False once the property has failed
+        (the search for a failing input ends there: the remaining, more expensive sweeps are skipped)"""
+        if lines:
+            model = batch_parallel(drv, [l for _, l, _ in lines], workers=ctx.workers)
+            impl = pmap(impl_line, [l for _, l, _ in lines], workers=ctx.workers)
+            for (kind, line, det), m, im in zip(lines, model, impl):
+                if rec.compare(kind, {"line": line}, im, m, determined=det, key=line[:300]):
+                    rec.sample(kind, {"request": line[:300], "answer": m[:300]}, limit=1)
+                if im == REJECT:
+                    rec.count(kind + ":reject")
+                if kind == "control_block" and im != REJECT:
+                    rec.count(f"cb:hashes={im.split(' ')[5] if im.split(' ')[2] == 'pt' else '?'}")
+                    rec.count(f"cb:parity={im.split(' ')[1]}")
+        if preds:
+            results = pmap(eval_pred, preds, workers=ctx.workers)
+            for (kind, case), (ok, got, want) in zip(preds, results):
+                if ok:
+                    rec.ok(kind, repr(case)[:300])
+                    rec.sample(kind, case, limit=1)
+                else:
+                    rec.violation(kind, dict(case, pred=kind), got, want,
+                                  note=case.get("why", "") if isinstance(case, dict) else "")
+        lines.clear()
+        preds.clear()
+        return not (rec.violations or rec.disagreements)
+
     keys = make_keys(rng, ctx.n(10, 40))
     evens = [k for k in keys if k[2] % 2 == 0]
     odds = [k for k in keys if k[2] % 2 == 1]
@@ -630,7 +667,11 @@ def run(ctx):
         rec.count(f"tree:leaves={n}")
         rec.count(f"tree:depth={depth(sh)}")
         rec.count("treekey:even" if k[2] % 2 == 0 else "treekey:odd")
-    for spec, k in trees:
+    rng.shuffle(trees)
+    for ti, (spec, k) in enumerate(trees):
+        if ti == 20 and not flush():     # a first slice of every kind of case: stop here when the property already fails
+            rec.note("stopped after the first slice: failing input found")
+            return
         tt = tok_tree(spec)
         add("tree_hash", f"tree_hash {tt}")
         add("external_pubkey", f"external_pubkey {tt} {ptok(k)}")
@@ -702,18 +743,9 @@ def run(ctx):
             add("witness_cb", f"witness_cb {blist(items)}", determined=False)
             add("witness_leaf", f"witness_leaf {blist(items)}", determined=False)
 
-    # ---- run the model on everything generated so far, and the implementation in parallel
-    model = batch_parallel(drv, [l for _, l, _ in lines], workers=ctx.workers)
-    impl = pmap(impl_line, [l for _, l, _ in lines], workers=ctx.workers)
-    cbs = []   # (leaf spec, cb bytes, qx) of well-formed control blocks, for the alteration sweep
-    for (kind, line, det), m, im in zip(lines, model, impl):
-        if rec.compare(kind, {"line": line}, im, m, determined=det, key=line[:300]):
-            rec.sample(kind, {"request": line[:300], "answer": m[:300]})
-        if im == REJECT:
-            rec.count(kind + ":reject")
-        if kind == "control_block" and im != REJECT:
-            rec.count(f"cb:hashes={im.split(' ')[5] if im.split(' ')[2] == 'pt' else '?'}")
-            rec.count(f"cb:parity={im.split(' ')[1]}")
+    if not flush():
+        rec.note("alteration sweeps skipped: failing input found")
+        return
 
     # ---- alterations: every byte of sampled control blocks and of their leaf scripts
     alter_trees = [tk for tk in trees if all(l[0] % 2 == 0 for l in leaves_of(tk[0]))]
@@ -730,7 +762,6 @@ def run(ctx):
         if len(specs) >= budget:
             break
 
-    alt_lines = []
     for (spec, k, leaf), (cbb, qx, raw) in zip(specs, pmap(_cb_of, specs, workers=ctx.workers)):
         first = True
         for pos in range(len(cbb)):
@@ -743,8 +774,8 @@ def run(ctx):
                 if pos == 0 or rng.random() < 0.12:
                     bad = bytearray(cbb)
                     bad[pos] ^= delta
-                    alt_lines.append(("cb_external:altered", f"cb_external {xb(bad)} {tok_script(leaf[1])}"))
-                    alt_lines.append(("cb_accepts:altered", f"cb_accepts {xb(bad)} {tok_script(leaf[1])} {xb(qx)}"))
+                    add("cb_external:altered", f"cb_external {xb(bad)} {tok_script(leaf[1])}")
+                    add("cb_accepts:altered", f"cb_accepts {xb(bad)} {tok_script(leaf[1])} {xb(qx)}")
         for pos in range(len(raw)):
             delta = rng.choice([1, 0x80, rng.randrange(1, 256)])
             preds.append(("script_alter", {"cb": xb(cbb), "qx": xb(qx), "raw": xb(raw), "pos": pos, "delta": delta,
@@ -752,31 +783,16 @@ def run(ctx):
             if rng.random() < 0.15:
                 bad = bytearray(raw)
                 bad[pos] ^= delta
-                alt_lines.append(("cb_external:altered_script", f"cb_external {xb(cbb)} R {xb(bad)}"))
+                add("cb_external:altered_script", f"cb_external {xb(cbb)} R {xb(bad)}")
         for cut in (0, 1, 32, len(cbb) - 1, len(cbb) - 32):
             if 0 <= cut < len(cbb):
-                alt_lines.append(("cb_external:truncated", f"cb_external {xb(cbb[:cut])} {tok_script(leaf[1])}"))
-        alt_lines.append(("cb_external:extended", f"cb_external {xb(cbb + bytes(32))} {tok_script(leaf[1])}"))
-        alt_lines.append(("cb_external:original", f"cb_external {xb(cbb)} {tok_script(leaf[1])}"))
-        alt_lines.append(("cb_root", f"cb_root {xb(cbb)} {tok_script(leaf[1])}"))
-        alt_lines.append(("cb_accepts:original", f"cb_accepts {xb(cbb)} {tok_script(leaf[1])} {xb(qx)}"))
-        alt_lines.append(("cb_accepts:otherkey", f"cb_accepts {xb(cbb)} {tok_script(leaf[1])} {xb(rbytes(rng, 32))}"))
-    model = batch_parallel(drv, [l for _, l in alt_lines], workers=ctx.workers)
-    impl = pmap(impl_line, [l for _, l in alt_lines], workers=ctx.workers)
-    for (kind, line), m, im in zip(alt_lines, model, impl):
-        if rec.compare(kind, {"line": line}, im, m, determined=True, key=line[:300]):
-            rec.sample(kind, {"request": line[:200], "answer": m[:200]}, limit=1)
-        if im == REJECT:
-            rec.count(kind + ":reject")
-
-    # ---- direct predicates
-    results = pmap(eval_pred, preds, workers=ctx.workers)
-    for (kind, case), (ok, got, want) in zip(preds, results):
-        if ok:
-            rec.ok(kind, repr(case)[:300])
-            rec.sample(kind, case, limit=1)
-        else:
-            rec.violation(kind, dict(case, pred=kind), got, want, note=case.get("why", "") if isinstance(case, dict) else "")
+                add("cb_external:truncated", f"cb_external {xb(cbb[:cut])} {tok_script(leaf[1])}")
+        add("cb_external:extended", f"cb_external {xb(cbb + bytes(32))} {tok_script(leaf[1])}")
+        add("cb_external:original", f"cb_external {xb(cbb)} {tok_script(leaf[1])}")
+        add("cb_root", f"cb_root {xb(cbb)} {tok_script(leaf[1])}")
+        add("cb_accepts:original", f"cb_accepts {xb(cbb)} {tok_script(leaf[1])} {xb(qx)}")
+        add("cb_accepts:otherkey", f"cb_accepts {xb(cbb)} {tok_script(leaf[1])} {xb(rbytes(rng, 32))}")
+    flush()
 
 
 def replay(ctx, v):
